@@ -1112,9 +1112,41 @@ def static_expand(ogp, t):
 
 
 def find_output_template(ogp):
-    for q, v in getattr(ogp, 'raw', ogp.summaries).items():
+    raw = getattr(ogp, 'raw', ogp.summaries)
+
+    def bindable(q):
+        # every parameter can be bound from a model world: the options, the module, the source text, the include path (or a context record of those)
+        for p in ogp.crate.fns[q]['params']:
+            ty = p['ty'].replace(' ', '')
+            if p.get('synthetic') or 'WriteOptions' in ty or ty.startswith('Option<') or ty.replace('&', '').replace("'_", '').endswith('Module') or ty.endswith('str'):
+                continue
+            if ogp.crate.context_struct(ogp.crate.fns[q]['mod'], p['ty']):
+                continue
+            return False
+        return True
+    for q, v in raw.items():
         for t in E.find_templates(v, lambda t: t[3] == q and sum(1 for it in t[2] if it[0] in ('hole', 'rep')) >= 10 and all(it[0] != 'tok' for it in t[2])):
             if any('WriteOptions' in p['ty'] for p in ogp.crate.fns[q]['params']):
+                if bindable(q):
+                    return q, t
+                # the assembling function is handed intermediate results (`analysis: &ModuleAnalysis`) by a staged caller: instantiate the
+                # grammar from the innermost caller that computes them
+                cands = []
+                for c, cv in raw.items():
+                    if c != q and cv is not None and c in ogp.crate.fns and bindable(c):
+                        inst = E.find_templates(cv, lambda x: x[1] == t[1])
+                        if inst:
+                            cg = ogp.crate.call_graph()
+                            seen, st_ = set(), [c]
+                            while st_:
+                                x_ = st_.pop()
+                                if x_ not in seen:
+                                    seen.add(x_)
+                                    st_.extend(cg.get(x_, ()))
+                            cands.append((len(seen), c, inst[0]))       # innermost = fewest functions below it (the public wrappers sit above)
+                if cands:
+                    _, c, inst = sorted(cands, key=lambda x: x[:2])[0]
+                    return c, inst
                 return q, t
     return None, None
 
